@@ -9,6 +9,10 @@ open Rxn Driver Rxn.Store
 structure St where
   sys : Publish.Sys := Publish.init []
   descs : List (Nat × String) := []     -- contents of the snapshot files by id
+  savepoints : List Nat := []           -- published savepoints whose artifact the harness can restore (no operators)
+  armed : Bool := false                 -- the harness parks the next `sourceSplitter.Checkpoint()`
+  held : Option Call := none            -- the call that is inside `Checkpoint()`: it holds `stateMu`
+  queue : List Call := []               -- calls issued meanwhile: blocked on `stateMu`, run after it in order
 
 def natList (s : String) : List Nat :=
   if s == "-" then [] else (s.splitOn ",").map natOr
@@ -41,23 +45,57 @@ def call (st : St) (c : Call) : St × String :=
   | some (s1, [.res r, .finished snap]) =>
     let s2 := applyAll s1 [.write snap.id, .lock snap.id]
     let s3 := applyAll s2 (s2.pub.removes.map Publish.Act.remove)
-    ({ sys := s3, descs := (snap.id, descOf snap) :: st.descs }, s!"{showRes r} pub {descOf snap}")
+    ({ st with sys := s3, descs := (snap.id, descOf snap) :: st.descs,
+               savepoints := if snap.isSavepoint && snap.opEntries.isEmpty then snap.id :: st.savepoints else st.savepoints },
+     s!"{showRes r} pub {descOf snap}")
   | _ => (st, "model-error")
 
+/-- a store call issued by the harness: while another call is parked inside `Checkpoint()` it blocks on the
+store mutex (`Facts.c12CallsAtomic`, `Facts.c12FinishHoldsLock`) and runs after it -/
+def issue (st : St) (c : Call) : St × String :=
+  match st.held with
+  | some _ => ({ st with queue := st.queue ++ [c] }, "blocked")
+  | none =>
+    if st.armed && (Store.step st.sys.store c).2.2.isSome then
+      ({ st with armed := false, held := some c }, "held")
+    else call st c
+
+def release (st : St) : St × String :=
+  match st.held with
+  | none => (st, "released -")
+  | some c =>
+    let (st1, r0) := call { st with held := none, queue := [] } c
+    let (st2, rs) := st.queue.foldl (fun (acc : St × List String) q =>
+      let (s', r) := call acc.1 q
+      (s', acc.2 ++ [r])) (st1, [r0])
+    (st2, "released " ++ joinWith " ; " rs)
+
 def step (st : St) : List String → St × String
-  | ["create", ops, srs] => call st (.create (natList ops) (natList srs))
-  | ["savepoint", ops, srs] => call st (.savepoint (natList ops) (natList srs))
-  | ["opack", op, cp, tag] => call st (.opAck (natOr op) (natOr cp) (natOr tag))
-  | ["srack", sr, cp, splits] => call st (.srAck (natOr sr) (natOr cp) (natList splits))
-  | ["redeploy"] => call st .redeploy
+  | ["create", ops, srs] => issue st (.create (natList ops) (natList srs))
+  | ["savepoint", ops, srs] => issue st (.savepoint (natList ops) (natList srs))
+  | ["opack", op, cp, tag] => issue st (.opAck (natOr op) (natOr cp) (natOr tag))
+  | ["srack", sr, cp, splits] => issue st (.srAck (natOr sr) (natOr cp) (natList splits))
+  | ["redeploy"] => issue st .redeploy
+  | ["hold"] => if st.held.isSome then (st, "skipped") else ({ st with armed := true }, "armed")
+  | ["release"] => release st
+  | ["sprestart", k, mode] =>
+    if st.held.isSome then (st, "skipped")
+    else if (natOr k) ∈ st.savepoints then
+      let files := if mode == "fresh" then [] else st.sys.pub.files
+      let written := if mode == "fresh" then [] else st.sys.pub.written
+      ({ st with sys := Publish.bootSavepoint (natOr k) files written st.sys.pub.delivered, armed := false },
+       s!"loaded {natOr k}")
+    else (st, "nosavepoint")
   | ["current"] =>
+    if st.held.isSome then (st, "skipped") else
     match st.sys.pub.current with
     | none => (st, "cur none")
     | some n => (st, s!"cur {(st.descs.lookup n).getD s!"id={n} ?"}")
   | ["restart"] =>
+    if st.held.isSome then (st, "skipped") else
     match Publish.step st.sys .crash with
-    | some (s', [.loaded none]) => ({ st with sys := s' }, "loaded none")
-    | some (s', [.loaded (some n)]) => ({ st with sys := s' }, s!"loaded {n}")
+    | some (s', [.loaded none]) => ({ st with sys := s', armed := false }, "loaded none")
+    | some (s', [.loaded (some n)]) => ({ st with sys := s', armed := false }, s!"loaded {n}")
     | _ => (st, "model-error")
   | _ => (st, "bad-op")
 
